@@ -419,6 +419,15 @@ var addrAlphabet = []addrSym{
 	{"/ip6/::/tcp/80", true},
 	{"/ip6/fd12::1/tcp/80", true},
 	{"/dns/localhost/tcp/80/http", true},
+	// the IP address followed by something other than tcp (what makes an
+	// address private is its IP component alone)
+	{"/ip4/127.0.0.1", true},
+	{"/ip4/10.0.0.7/udp/4001/quic-v1", true},
+	{"/ip4/192.168.1.4/http", true},
+	{"/ip6/::/tls", true},
+	{"/ip4/127.0.0.1/sctp/5000", true},
+	{"/ip4/8.8.4.4/udp/4001/quic-v1", false},
+	{"/ip4/8.8.4.4/http", false},
 }
 
 func layer3(t *testing.T, r *vp.Recorder, maxLen int) {
@@ -728,7 +737,7 @@ func layer4(t *testing.T, r *vp.Recorder, depth int) {
 
 func TestCheck(t *testing.T) {
 	r := vp.New("C09", "model_checking",
-		"three layers, all against one reference model (allow predicate, then an LRU set with refresh-on-hit and explicit removal): (1) the LRU object (test-only export) at capacities 1..3 over capacity+2 strings: every sequence of exactly `depth` update/remove operations, return value and length compared after every step; (2) the real receiver (no pubsub) at its real capacity: a fill prefix of exactly capacity distinct CIDs (three variants: plain, one refreshed in the middle, one un-cached and re-announced) followed by every sequence of <= N operations over {announce oldest / second-oldest / newest / a fresh CID / a fresh CID from a denied peer / the oldest CID from a denied peer / the CID evicted last / the CID added last / a burst of capacity-1 fresh CIDs / the same digest as the newest or the oldest under another codec, un-cache oldest / newest / the other-codec variant of the newest}; after each announcement a consumer calls Next and quiescence in a synctest bubble decides delivered / not delivered; (3) every address list of <= M over 12 addresses (public, private ranges, loopback, unspecified, unique-local, localhost) with filtering on and off; (4) the pubsub path: every sequence of <= K messages over {plain from F, republished by relay R for origin O, republished for a denied origin, plain from a denied peer, republished by a denied relay for O, own republication, malformed payload, direct announcement with resend, repeats of the previous CID}, delivery / non-delivery and attribution decided by quiescence. states = distinct sequences; transitions = operations; traces = sequences executed on the real code.",
+		"three layers, all against one reference model (allow predicate, then an LRU set with refresh-on-hit and explicit removal): (1) the LRU object (test-only export) at capacities 1..3 over capacity+2 strings: every sequence of exactly `depth` update/remove operations, return value and length compared after every step; (2) the real receiver (no pubsub) at its real capacity: a fill prefix of exactly capacity distinct CIDs (three variants: plain, one refreshed in the middle, one un-cached and re-announced) followed by every sequence of <= N operations over {announce oldest / second-oldest / newest / a fresh CID / a fresh CID from a denied peer / the oldest CID from a denied peer / the CID evicted last / the CID added last / a burst of capacity-1 fresh CIDs / the same digest as the newest or the oldest under another codec, un-cache oldest / newest / the other-codec variant of the newest}; after each announcement a consumer calls Next and quiescence in a synctest bubble decides delivered / not delivered; (3) every address list of <= M over 19 addresses (public, private ranges, loopback, unspecified, unique-local, localhost; the IP followed by tcp, udp, sctp, tls, http or nothing) with filtering on and off; (4) the pubsub path: every sequence of <= K messages over {plain from F, republished by relay R for origin O, republished for a denied origin, plain from a denied peer, republished by a denied relay for O, own republication, malformed payload, direct announcement with resend, repeats of the previous CID}, delivery / non-delivery and attribution decided by quiescence. states = distinct sequences; transitions = operations; traces = sequences executed on the real code.",
 		"reference model is the oracle (trusted, 30 lines)",
 		"pubsub path (layer 4): one libp2p host without transports and one gossipsub topic inside a synctest bubble; messages are injected on the topic under arbitrary author identities; multi-host gossip is not driven",
 		"non-public is judged by net.IP.IsLoopback/IsPrivate/IsUnspecified and the name localhost, independently of go-multiaddr's own classification",
